@@ -3,6 +3,7 @@ CONSTANTS
   Endpoints = {"full", "mosnconfig", "allrouters", "allclusters", "alllisteners", "router", "cluster", "listener"}
   MaxOps = 3
   KeyForms = {"pem"}
+  KeySpells = {"exact"}
   ArrayLen = 3
   Defects = {}
 SPECIFICATION Spec
